@@ -881,9 +881,42 @@ static ferret_array_t *arr_new(void) {
     return a;
 }
 
+/* resize ops: 200+k, k = 0..6 -> new capacity -1, 0, len-1, len, len+1, capacity, 2*capacity+1.
+ * The abstract list does not change; the call is refused exactly for a negative capacity and
+ * the capacity afterwards is max(requested, length). */
+#define RESIZE_OP0 200
+#define RESIZE_OPS 7
+static int32_t resize_target(int k, const ferret_array_t *a) {
+    switch (k) {
+    case 0: return -1;
+    case 1: return 0;
+    case 2: return a->length - 1;
+    case 3: return a->length;
+    case 4: return a->length + 1;
+    case 5: return a->capacity;
+    default: return 2 * a->capacity + 1;
+    }
+}
+
+static const Node *g_apply_node; /* for violations raised inside arr_apply */
+
 static bool arr_apply(ferret_array_t *a, AModel *am, int op, bool *grew) {
     uint8_t *eb = sb_elem; /* exact size */
     bool ok;
+    if (op >= RESIZE_OP0) {
+        int32_t t = resize_target(op - RESIZE_OP0, a);
+        int32_t len0 = a->length;
+        ok = ferret_array_resize(a, t);
+        if (grew) *grew = false;
+        if (t < 0) return !ok; /* must be refused: report "true" (= as expected) iff it was */
+        if (ok && g_apply_node) {
+            int32_t want = t < len0 ? len0 : t;
+            if (a->capacity != want) violation(g_apply_node, op, "resize(%d) left capacity %d, length is %d", t, a->capacity, len0);
+            if (a->length != len0) violation(g_apply_node, op, "resize(%d) changed the length from %d to %d", t, len0, a->length);
+            if (a->capacity > 0 && a->data == NULL) violation(g_apply_node, op, "resize(%d) left no storage for capacity %d", t, a->capacity);
+        }
+        return ok;
+    }
     if (op < 2) {
         int v = op + 1;
         pat(eb, v, g_esize);
@@ -967,7 +1000,7 @@ static void arr_check_state(ferret_array_t *a, const AModel *am, const Node *nd)
      * allocation (also the part between length and capacity) unchanged */
     size_t bytes = (size_t)a->capacity * g_esize;
     uint8_t *snap = malloc(bytes ? bytes : 1);
-    memcpy(snap, a->data, bytes);
+    if (bytes) memcpy(snap, a->data, bytes);
     void *data0 = a->data;
     for (int q = 0; q < ni; q++) {
         int32_t i = idx[q];
@@ -979,9 +1012,10 @@ static void arr_check_state(ferret_array_t *a, const AModel *am, const Node *nd)
             n_trans++;
             if (ok) violation(nd, -1, "set(%d,v%d) not refused, length is %d (capacity %d)", i, v, am->n, a->capacity);
             else OUTCOME("array:set-refused");
-            if (a->data != data0 || a->length != am->n || a->capacity != cp || memcmp(a->data, snap, bytes) != 0) {
+            if (a->data != data0 || a->length != am->n || a->capacity != cp || (bytes && memcmp(a->data, snap, bytes) != 0)) {
                 violation(nd, -1, "refused set(%d,v%d) changed the array", i, v);
-                memcpy(snap, a->data, (size_t)a->capacity * g_esize <= bytes ? (size_t)a->capacity * g_esize : bytes);
+                size_t nb = (size_t)a->capacity * g_esize <= bytes ? (size_t)a->capacity * g_esize : bytes;
+                if (nb && a->data) memcpy(snap, a->data, nb);
             }
         }
     }
@@ -1041,6 +1075,31 @@ static int run_array(int argc, char **argv) {
                 if (!ok) violation(&nd, op, "%s returned false", op < 2 ? "append" : "in-range set");
                 if (op < 2) { OUTCOME("array:append"); if (grew) OUTCOME("array:grew"); }
                 else OUTCOME("array:set-ok");
+                cl = arr_canon(a, canon_buf[0], sizeof canon_buf[0]);
+                if (hs_insert(canon_buf[0], cl)) {
+                    Node ch = nd;
+                    ch.ops[ch.depth++] = (uint8_t)op;
+                    q_push(&ch);
+                    level_new[d + 1]++;
+                }
+                g_phase = "destroy";
+                ferret_array_destroy(a);
+            }
+            /* resize: the list stays, the capacity (part of the concrete state) moves */
+            for (int k = 0; k < RESIZE_OPS; k++) {
+                int op = RESIZE_OP0 + k;
+                g_cur_op = op;
+                g_phase = "replay";
+                a = arr_replay(&nd, &am);
+                if (resize_target(k, a) > 64) { ferret_array_destroy(a); continue; } /* keeps the space finite */
+                g_phase = "transition";
+                g_apply_node = &nd;
+                bool ok = arr_apply(a, &am, op, NULL);
+                g_apply_node = NULL;
+                n_trans++;
+                n_mut++;
+                if (!ok) violation(&nd, op, k == 0 ? "resize(-1) was not refused" : "resize to a non-negative capacity returned false");
+                OUTCOME(k == 0 ? "array:resize-refused" : "array:resize");
                 cl = arr_canon(a, canon_buf[0], sizeof canon_buf[0]);
                 if (hs_insert(canon_buf[0], cl)) {
                     Node ch = nd;
